@@ -235,7 +235,9 @@ func cmdTLD(args []string) {
 	}
 	// names that read as IP addresses: as a dNSName they are names like any other (their right-most label is in no table);
 	// only a common name that is an IP address is exempt
-	for _, lit := range []string{"192.168.1.10", "10.0.0.1", "8.8.8.8", "2001:db8::1", "::1", "1.2.3.4.5", "256.1.1.1"} {
+	for _, lit := range []string{"192.168.1.10", "10.0.0.1", "8.8.8.8", "2001:db8::1", "::1", "1.2.3.4.5", "256.1.1.1",
+		// texts that some address parsers accept and net.ParseIP does not: zones, ports, brackets, leading zeros
+		"fe80::1%gw.corp", "::1%intranet.lan", "fe80::1%eth0", "[2001:db8::1]", "192.0.2.1:443", "010.001.002.003", "192.0.2.1.", "0x7f.1", "::ffff:192.0.2.1%x.y"} {
 		lintProbe(0, lit, false, time.Date(2020, 1, 1, 0, 0, 0, 0, time.UTC))
 	}
 	_ = rng
